@@ -38,6 +38,8 @@ type FnSpec struct {
 	Lemma      bool
 	Safe       []string // property labels under which implicit obligations are checked
 	Unroll     map[int]int
+	Thorough   bool // checked only in the thorough tier
+	Bounded    int  // >0: bounded stand-in (lemma with callees inlined, loops unrolled to this bound)
 	PanicsIff  *Clause
 	Fresh      []string // results that are freshly allocated
 	Pos        string
@@ -284,6 +286,21 @@ func (c *Contracts) parseFile(prog *ssa.Program, p *packages.Package, sp *ssa.Pa
 				k, _ := strconv.Atoi(fs[3])
 				if s := c.spec(sp, fs[1], pos); s != nil {
 					s.Unroll[n] = k
+				}
+			case "thorough":
+				if !need(2) {
+					continue
+				}
+				if s := c.spec(sp, fs[1], pos); s != nil {
+					s.Thorough = true
+				}
+			case "bounded":
+				if !need(3) {
+					continue
+				}
+				n, _ := strconv.Atoi(fs[2])
+				if s := c.spec(sp, fs[1], pos); s != nil {
+					s.Bounded = n
 				}
 			case "lemma":
 				if specFn == nil {
